@@ -924,13 +924,38 @@ Local Open Scope R_scope.
         eos.dpLowT = lambda T, c=eos.c: 4 * c[2] * T ** 3 / 3
         eos.deLowT = lambda T, c=eos.c: 4 * c[2] * T ** 3
         hdr += ("Definition %s := {| hy_TMaxHydro := %s; hy_TMinHydro := %s;\n"
-                "  hy_Tnucl := " + R(tnuc) + "; th_dpLowT := fun T => 4 * " + R(aL) +
-                " * T ^ 3 / 3; th_deLowT := fun T => 4 * " + R(aL) + " * T ^ 3;\n"
+                "  hy_Tnucl := %s; th_dpLowT := fun T => 4 * %s * T ^ 3 / 3; "
+                "th_deLowT := fun T => 4 * %s * T ^ 3;\n"
                 "  th_pHighT := fun T => %s * T ^ 4 / 3 - %s; th_pLowT := fun T => %s * T ^ 4 / 3 - %s;\n"
                 "  th_eHighT := fun T => %s * T ^ 4 + %s; th_eLowT := fun T => %s * T ^ 4 + %s;\n"
                 "  th_csqHighT := fun T => 1 / 3 + 0 * T; th_csqLowT := fun T => %s + 0 * T |}.\n" % (
-                    env, R(tmax), R(tmin), R(aH), R(eH), R(aL), R(eL), R(aH), R(eH), R(aL),
-                    R(eL), R(nu)))
+                    env, R(tmax), R(tmin), R(tnuc), R(aL), R(aL), R(aH), R(eH), R(aL), R(eL),
+                    R(aH), R(eH), R(aL), R(eL), R(nu)))
+        # the function whose root is the Jouguet point (closure of findJouguetVelocity):
+        # evaluated on the implementation by the same arithmetic on the stub EOS
+        tmj = dy(rng.uniform(1.0, 2.0), 8)
+        # the implementation's own closure, captured from the call it makes to root_scalar
+        import WallGo.hydrodynamics as _H
+
+        class _Captured(Exception):
+            pass
+        cap, orig_rs = {}, _H.root_scalar
+
+        def fake_root_scalar(f, *a, **k):
+            cap["f"] = f
+            raise _Captured()
+        hy.TMaxLowT, hy.rtol, hy.atol = float(tmax), 1e-6, 1e-10
+        _H.root_scalar = fake_root_scalar
+        try:
+            hy.findJouguetVelocity()
+        except _Captured:
+            pass
+        finally:
+            _H.root_scalar = orig_rs
+        val = float(cap["f"](float(tmj)))
+        goal("hy_vpDerivNum %s %s" % (env, R(tmj)), val,
+             "unfold hy_vpDerivNum, %s; cbn [th_pHighT th_pLowT th_eHighT th_eLowT th_dpLowT "
+             "th_deLowT hy_Tnucl];" % env)
         Tp, Tm = dy(rng.uniform(0.8, 2), 8), dy(rng.uniform(0.8, 2), 8)
         vpvm, vpovm = hy.vpvmAndvpovm(float(Tp), float(Tm))
         # e+ > e- for these coefficient ranges (aH T^4 + eH vs aL T^4 + eL) is decided by
